@@ -345,11 +345,13 @@ def edit_constant(parameterized):
     kls_params = parameterized.param.objects(instance=False)
     inst_params = parameterized._param__private.params
     updated = []
-    for pname, pobj in (kls_params | inst_params).items():
-        if pobj.constant:
-            pobj.constant = False
-            updated.append((pname, pobj))
     try:
+        # Inside the try: a watcher of the `constant` attribute may raise
+        # while the flags are being cleared
+        for pname, pobj in (kls_params | inst_params).items():
+            if pobj.constant:
+                updated.append((pname, pobj))
+                pobj.constant = False
         yield
     finally:
         for pname, pobj in updated:
